@@ -611,9 +611,11 @@ func c04Scenario(c *Ctx, idx int, r *Rng) (mlines, mimpl, mcase []string) {
 				if !bytes.Equal(after, f.content) {
 					fail(fmt.Sprintf("after `git lfs %s` a selected LFS file does not have the original bytes", cmdKind), fmt.Sprintf("%s (%s): %d bytes want %d", f.path, f.mutation, len(after), len(f.content)))
 				}
-				if cmdKind == "pull" && !objPresent(f.oid) {
-					fail("after `git lfs pull` a selected LFS file has no hash-valid object in local storage", f.path)
-				}
+			}
+			// whatever the working-tree file holds — the user's edit, another version's pointer — a pull is a fetch
+			// first: the object recorded for the selected path is in local storage afterwards
+			if cmdKind == "pull" && ccode == 0 && f.mutation != "git-rm" && !objPresent(f.oid) {
+				fail("after `git lfs pull` a selected LFS file has no hash-valid object in local storage", fmt.Sprintf("%s (working-tree state: %s)", f.path, f.mutation))
 			}
 			if f.mutation == "read-only" && aerr == nil {
 				if fi, err := os.Stat(wp); err == nil && fi.Mode().Perm() != f.mode {
